@@ -27,7 +27,9 @@ class StrictNode(NodeMixin):
 
 
 CLS = {"anynode": AnyNode, "node": Node, "mixin": UserNode, "strict": StrictNode}
-SKIP = ("_NodeMixin__children", "_NodeMixin__parent")
+def bookkeeping(key):
+    """the mixins' own (name-mangled) link attributes, whatever they are called in the tree under test"""
+    return key.startswith("_NodeMixin__") or key.startswith("_LightNodeMixin__")
 
 
 def vtext(v):
@@ -48,7 +50,7 @@ def build(t, cls, parent=None):
 
 
 def tree_canon(n):
-    return [[[k, vtext(v)] for k, v in n.__dict__.items() if k not in SKIP], [tree_canon(c) for c in n.children]]
+    return [[[k, vtext(v)] for k, v in n.__dict__.items() if not bookkeeping(k)], [tree_canon(c) for c in n.children]]
 
 
 def ddata_canon(d):
